@@ -314,6 +314,7 @@ class Reporter:
             print(f"KNOWN-FINDING: property={self.prop} {e['what']}")
             self.ev.known_seen.append(eid)
         code = 0
+        confirmed = False
         for (clause, subject), (case, violation) in sorted(self.new.items()):
             if confirm is not None:
                 ok = confirm(case, violation)
@@ -330,7 +331,9 @@ class Reporter:
             print(f"violation: {clause} / {subject}: {violation.get('detail', '')}"[:600])
             print(f"VIOLATION property={self.prop} replay={path}")
             self.ev.violations += 1
-            code = max(code, 1)
+            confirmed = True
+        if confirmed:
+            return 1  # a confirmed violation outranks a non-reproducible one
         return code
 
 
